@@ -26,7 +26,7 @@ EXTENDS Naturals, Sequences, FiniteSets, TLC, IOUtils
 Thorough == "VERIF_TIER" \in DOMAIN IOEnv /\ IOEnv.VERIF_TIER = "thorough"
 CONSTANT N                     \* worker threads (0 = inline)
 K == 3                         \* candidates 1..K
-MaxReq == IF Thorough THEN 5 ELSE 4
+MaxReq == IF "VERIF_VANITY_REQ" \in DOMAIN IOEnv THEN atoi(IOEnv.VERIF_VANITY_REQ) ELSE IF Thorough THEN 5 ELSE 4
 Workers == 1..N
 MainT == 0
 
